@@ -32,6 +32,10 @@ TARGETS = {
     "detector/src/padwing/map.rs": (["C01", "C08", "C09", "C10"], [(100, 130), (180, 200), (380, 392), (560, 640)]),
     "physics/src/lib.rs": (["C09", "C10", "C11", "C18"], [(116, 140), (240, 380)]),
     "physics/src/drift.rs": (["C09", "C18"], [(20, 72)]),
+    "physics/src/reconstruction.rs": (["C14", "C16"], [(140, 260)]),
+    "physics/src/reconstruction/track_finding.rs": (["C11", "C14", "C15"], [(20, 210)]),
+    "physics/src/reconstruction/track_fitting.rs": (["C14", "C16"], [(20, 200)]),
+    "physics/src/reconstruction/vertex_fitting.rs": (["C14", "C15", "C16"], [(20, 190)]),
     "analysis/src/lib.rs": (["C19", "C20"], [(1, 200)]),
     "analysis/src/bin/alpha-g-chronobox-timestamps/main.rs": (["C20"], [(30, 230)]),
     "analysis/src/bin/alpha-g-vertices/main.rs": (["C19"], [(40, 180)]),
